@@ -1,2 +1,204 @@
-import BsVerif.Model.Breakpoint
-/-! # C01 (theorems follow) -/
+import BsVerif.Lemmas.Breakpoint
+/-!
+# C01 — breakpoint stops are exactly the projection of the real execution
+
+Property theorems about the model `BsVerif/Model/Breakpoint.lean` (mirror of `BreakpointRegistry`,
+`Breakpoint::{enable,disable}`, `step_over_breakpoint`, `continue_execution`).  Everything is proved for ALL
+traces `τ`, ALL original texts `orig`, ALL exit codes and ALL operation lists, by invariants and induction
+(helper lemmas: `BsVerif/Lemmas/Breakpoint.lean`).
+
+## The specification (read this first)
+
+An abstract debugger that knows nothing about INT3, saved bytes, registries or step-over: it only has the *set* `B`
+of user breakpoint addresses, the position `idx` in the native trace `τ` and a status.
+-/
+namespace BsVerif.Bp
+open BsVerif.Mem
+
+structure Spec where
+  B : List Addr := []          -- user breakpoints currently set (used as a set)
+  late : List Addr := []       -- breakpoints added after the debuggee exited (see the note at `Spec.step`)
+  idx : Nat := 0               -- position in `τ` at which the debuggee is stopped
+  status : Status := .unload
+
+/-- first position `j ≥ i` of `τ` whose address is in `B`; `τ.length` if there is none
+(`firstFrom` is defined in the model file; `C01_nextHit_is_first` below says it is what its name says) -/
+def nextHit (B : List Addr) (τ : List Addr) (i : Nat) : Nat := firstFrom (fun a => decide (a ∈ B)) τ i
+
+/-- run to the first position `≥ i` with a breakpoint and stop there; exit if there is none -/
+def Spec.goto (τ : List Addr) (exitCode : Nat) (sp : Spec) (i : Nat) : Spec × Out :=
+  match τ[nextHit sp.B τ i]? with
+  | some a => ({ sp with idx := nextHit sp.B τ i, status := .inProgress }, .stop a)
+  | none => ({ sp with idx := nextHit sp.B τ i, status := .exited }, .exit exitCode)
+
+/-- one command.  Note on `exited`: when the debuggee exits, the real registry moves its breakpoints to the
+"uninit" list under *global* address keys, while `break`/`remove` by address use *relocated* keys; so after the exit
+`remove a` answers `none` for the breakpoints set before, and only finds those added since (`late`). -/
+def Spec.step (τ : List Addr) (exitCode : Nat) (sp : Spec) : Op → Spec × Out
+  | .brk a => match sp.status with
+    | .exited => ({ sp with late := a :: sp.late }, .ok)
+    | _ => ({ sp with B := a :: sp.B }, .ok)
+  | .remove a => match sp.status with
+    | .exited => ({ sp with late := sp.late.filter (· != a) }, if a ∈ sp.late then .ok else .none)
+    | _ => ({ sp with B := sp.B.filter (· != a) }, if a ∈ sp.B then .ok else .none)
+  | .start => match sp.status with
+    | .unload => sp.goto τ exitCode 0
+    | _ => (sp, .err)
+  | .cont => match sp.status with
+    | .inProgress => sp.goto τ exitCode (sp.idx + 1)
+    | _ => (sp, .err)
+
+def Spec.run (τ : List Addr) (exitCode : Nat) (sp : Spec) : List Op → Spec × List Out
+  | [] => (sp, [])
+  | op :: ops =>
+    let (sp1, o) := sp.step τ exitCode op
+    let (sp2, os) := Spec.run τ exitCode sp1 ops
+    (sp2, o :: os)
+
+/-- `nextHit` is the first position at or after `i` whose address is in `B` -/
+theorem C01_nextHit_is_first (B τ : List Addr) (i : Nat) (hi : i ≤ τ.length) :
+    i ≤ nextHit B τ i ∧ nextHit B τ i ≤ τ.length ∧
+    (∀ h : nextHit B τ i < τ.length, τ[nextHit B τ i] ∈ B) ∧
+    (∀ k, i ≤ k → k < nextHit B τ i → ∀ hk : k < τ.length, τ[k] ∉ B) := by
+  refine ⟨firstFrom_ge _ _ _ hi, firstFrom_le _ _ _, fun h => ?_, fun k h1 h2 hk => ?_⟩
+  · exact of_decide_eq_true (firstFrom_hit (fun a => decide (a ∈ B)) τ i h)
+  · exact of_decide_eq_false (firstFrom_min (fun a => decide (a ∈ B)) τ i k h1 h2 hk)
+
+/-! ## Hypotheses of the projection theorem -/
+
+/-- the user never sets a breakpoint at the ELF entry address: `add_and_enable` would replace the debugger's internal
+entry-point breakpoint there (same key), which the `continue_execution` loop never reports -/
+def NoBreakAtEntry (entry : Addr) (ops : List Op) : Prop := ∀ op ∈ ops, op ≠ .brk entry
+
+/-- ... and never removes "the breakpoint at the entry address": `remove_by_addr` does not look at the kind, so it
+would answer `ok` and delete the internal entry-point breakpoint -/
+def NoRemoveAtEntry (entry : Addr) (ops : List Op) : Prop := ∀ op ∈ ops, op ≠ .remove entry
+
+instance (entry ops) : Decidable (NoBreakAtEntry entry ops) := by unfold NoBreakAtEntry; infer_instance
+instance (entry ops) : Decidable (NoRemoveAtEntry entry ops) := by unfold NoRemoveAtEntry; infer_instance
+
+/-! ## The refinement relation and the simulation -/
+
+/-- model state `s` refines spec state `sp` (`Fresh`/`Live`/`Gone`: see `Lemmas/Breakpoint.lean` §5-6) -/
+def Sim (τ : List Addr) (exitCode : Nat) (orig : Code) (entry : Addr) (s : St) (sp : Spec) : Prop :=
+  s.τ = τ ∧ s.exitCode = exitCode ∧
+  match sp.status with
+  | .unload => Fresh orig entry sp.B s ∧ sp.late = []
+  | .inProgress => Live orig entry sp.B s ∧ s.idx = sp.idx ∧ s.idx < τ.length ∧ sp.late = []
+  | .exited => Gone sp.late s
+
+theorem Sim.status {τ x orig entry s sp} (h : Sim τ x orig entry s sp) : s.status = sp.status := by
+  obtain ⟨_, _, hm⟩ := h
+  cases hs : sp.status <;> rw [hs] at hm
+  · exact hm.1.st
+  · exact hm.1.st
+  · exact hm.st
+
+theorem Sim.unload {τ x orig entry s sp} (hτ : s.τ = τ) (hx : s.exitCode = x) (hs : sp.status = .unload)
+    (hf : Fresh orig entry sp.B s) (hl : sp.late = []) : Sim τ x orig entry s sp :=
+  ⟨hτ, hx, by rw [hs]; exact ⟨hf, hl⟩⟩
+
+theorem Sim.live {τ x orig entry s sp} (hτ : s.τ = τ) (hx : s.exitCode = x) (hs : sp.status = .inProgress)
+    (hf : Live orig entry sp.B s) (hi : s.idx = sp.idx) (hlt : s.idx < τ.length) (hl : sp.late = []) :
+    Sim τ x orig entry s sp :=
+  ⟨hτ, hx, by rw [hs]; exact ⟨hf, hi, hlt, hl⟩⟩
+
+theorem Sim.gone {τ x orig entry s sp} (hτ : s.τ = τ) (hx : s.exitCode = x) (hs : sp.status = .exited)
+    (hf : Gone sp.late s) : Sim τ x orig entry s sp :=
+  ⟨hτ, hx, by rw [hs]; exact hf⟩
+
+/-- one command: same answer, and the refinement relation is kept -/
+theorem C01_simulation_step (τ : List Addr) (x : Nat) (orig : Code) (entry : Addr)
+    (ho : Bytes orig) (hcc : ∀ a ∈ τ, orig a ≠ 0xCC) (hhead : τ.head? = some entry)
+    (s : St) (sp : Spec) (h : Sim τ x orig entry s sp) (op : Op)
+    (hb : op ≠ .brk entry) (hr : op ≠ .remove entry) :
+    (exec s op).2 = (sp.step τ x op).2 ∧ Sim τ x orig entry (exec s op).1 (sp.step τ x op).1 := by
+  obtain ⟨rfl, rfl, hm⟩ := h
+  cases hs : sp.status with
+  | unload =>
+    rw [hs] at hm
+    obtain ⟨hf, hl⟩ := hm
+    cases op with
+    | brk a =>
+      obtain ⟨r1, r2, r3, r4⟩ := exec_brk_fresh hf a (fun e => hb (e ▸ rfl))
+      have e : sp.step s.τ s.exitCode (.brk a) = ({ sp with B := a :: sp.B }, .ok) := by
+        simp only [Spec.step, hs]
+      rw [e]; exact ⟨r1, Sim.unload r3 r4 hs r2 hl⟩
+    | remove a =>
+      obtain ⟨r1, r2, r3, r4⟩ := exec_remove_fresh hf a
+      have e : sp.step s.τ s.exitCode (.remove a)
+          = ({ sp with B := sp.B.filter (· != a) }, if a ∈ sp.B then .ok else .none) := by
+        simp only [Spec.step, hs]
+      rw [e]; exact ⟨r1, Sim.unload r3 r4 hs r2 hl⟩
+    | start =>
+      obtain ⟨r1, r2, r3, r4, r5, r6⟩ := exec_start_fresh ho hf hcc hhead
+      have e : sp.step s.τ s.exitCode .start = sp.goto s.τ s.exitCode 0 := by simp only [Spec.step, hs]
+      rw [e]; unfold Spec.goto nextHit
+      cases hj : s.τ[firstFrom (fun a => decide (a ∈ sp.B)) s.τ 0]? with
+      | none =>
+        have hge := List.getElem?_eq_none_iff.mp hj
+        exact ⟨by rw [r4]; simp only [answerAt, hj], Sim.gone r1 r2 rfl (hl ▸ r6 hge)⟩
+      | some a =>
+        have hlt := (List.getElem?_eq_some_iff.mp hj).1
+        exact ⟨by rw [r4]; simp only [answerAt, hj],
+          Sim.live r1 r2 rfl (r5 hlt) r3 (by rw [r3]; exact hlt) hl⟩
+    | cont =>
+      rw [exec_cont_fresh hf]
+      have e : sp.step s.τ s.exitCode .cont = (sp, .err) := by simp only [Spec.step, hs]
+      rw [e]; exact ⟨rfl, Sim.unload rfl rfl hs hf.pokes hl⟩
+  | inProgress =>
+    rw [hs] at hm
+    obtain ⟨hf, hi, hlt, hl⟩ := hm
+    cases op with
+    | brk a =>
+      obtain ⟨r1, r2, r3, r4, r5⟩ := exec_brk_live ho hf a (fun e => hb (e ▸ rfl))
+      have e : sp.step s.τ s.exitCode (.brk a) = ({ sp with B := a :: sp.B }, .ok) := by
+        simp only [Spec.step, hs]
+      rw [e]; exact ⟨r1, Sim.live r3 r4 hs r2 (r5.trans hi) (by rw [r5]; exact hlt) hl⟩
+    | remove a =>
+      obtain ⟨r1, r2, r3, r4, r5, _⟩ := exec_remove_live ho hf a (fun e => hr (e ▸ rfl))
+      have e : sp.step s.τ s.exitCode (.remove a)
+          = ({ sp with B := sp.B.filter (· != a) }, if a ∈ sp.B then .ok else .none) := by
+        simp only [Spec.step, hs]
+      rw [e]; exact ⟨r1, Sim.live r3 r4 hs r2 (r5.trans hi) (by rw [r5]; exact hlt) hl⟩
+    | start =>
+      rw [exec_start_live hf]
+      have e : sp.step s.τ s.exitCode .start = (sp, .err) := by simp only [Spec.step, hs]
+      rw [e]; exact ⟨rfl, Sim.live rfl rfl hs hf.pokes hi hlt hl⟩
+    | cont =>
+      obtain ⟨r1, r2, r3, r4, r5, r6⟩ := exec_cont_live ho hf hcc hlt
+      have e : sp.step s.τ s.exitCode .cont = sp.goto s.τ s.exitCode (sp.idx + 1) := by
+        simp only [Spec.step, hs]
+      rw [e, ← hi]; unfold Spec.goto nextHit
+      cases hj : s.τ[firstFrom (fun a => decide (a ∈ sp.B)) s.τ (s.idx + 1)]? with
+      | none =>
+        have hge := List.getElem?_eq_none_iff.mp hj
+        exact ⟨by rw [r4]; simp only [answerAt, hj], Sim.gone r1 r2 rfl (hl ▸ r6 hge)⟩
+      | some a =>
+        have hlt' := (List.getElem?_eq_some_iff.mp hj).1
+        exact ⟨by rw [r4]; simp only [answerAt, hj],
+          Sim.live r1 r2 rfl (r5 hlt') r3 (by rw [r3]; exact hlt') hl⟩
+  | exited =>
+    rw [hs] at hm
+    cases op with
+    | brk a =>
+      obtain ⟨r1, r2, r3, r4⟩ := exec_brk_gone hm a
+      have e : sp.step s.τ s.exitCode (.brk a) = ({ sp with late := a :: sp.late }, .ok) := by
+        simp only [Spec.step, hs]
+      rw [e]; exact ⟨r1, Sim.gone r3 r4 hs r2⟩
+    | remove a =>
+      obtain ⟨r1, r2, r3, r4⟩ := exec_remove_gone hm a
+      have e : sp.step s.τ s.exitCode (.remove a)
+          = ({ sp with late := sp.late.filter (· != a) }, if a ∈ sp.late then .ok else .none) := by
+        simp only [Spec.step, hs]
+      rw [e]; exact ⟨r1, Sim.gone r3 r4 hs r2⟩
+    | start =>
+      rw [exec_start_gone hm]
+      have e : sp.step s.τ s.exitCode .start = (sp, .err) := by simp only [Spec.step, hs]
+      rw [e]; exact ⟨rfl, Sim.gone rfl rfl hs hm.pokes⟩
+    | cont =>
+      rw [exec_cont_gone hm]
+      have e : sp.step s.τ s.exitCode .cont = (sp, .err) := by simp only [Spec.step, hs]
+      rw [e]; exact ⟨rfl, Sim.gone rfl rfl hs hm.pokes⟩
+
+end BsVerif.Bp
